@@ -267,3 +267,14 @@ func VerifInJSONSection(data []byte, pos int) bool {
 	}
 	return false
 }
+
+// VerifTOCStart: the offset at which the table of contents of the (valid) shard begins; the TOC and
+// the 8-byte trailer that locates it run from there to the end of the file.
+func VerifTOCStart(data []byte) int {
+	r := &reader{r: verifFile(data, "layout.zoekt")}
+	toc, _, err := r.readHeader()
+	if err != nil {
+		panic(err)
+	}
+	return int(toc.off)
+}
